@@ -101,8 +101,8 @@ func FindValuePackage(n ssa.Value) fn.Optional[string] {
 			// the package of a method is the package of its receiver
 			pkg = node.Params[0].Parent().Package()
 		}
-		if pkg != nil {
-			return fn.Some(pkg.String())
+		if pkg != nil && pkg.Pkg != nil {
+			return fn.Some(pkg.Pkg.Path())
 		}
 		return fn.None[string]()
 	}
@@ -283,7 +283,8 @@ func isAliasEntrypoint(pointer *pointer.Result, node *ssa.Call, f func(config.Co
 	for _, label := range ptr.PointsTo().Labels() {
 		funcValue := label.Value().Name()
 		funcPackage := FindValuePackage(label.Value())
-		if funcPackage.IsSome() && f(config.CodeIdentifier{Package: funcPackage.Value(), Method: funcValue}) {
+		if funcPackage.IsSome() && f(config.CodeIdentifier{Context: node.Parent().String(), Package: funcPackage.Value(),
+			Method: funcValue, ValueMatch: node.String()}) {
 			return true
 		}
 	}
